@@ -1,5 +1,5 @@
 import NunVerif.Proofs.WireParse
-import NunVerif.Props.C04Newer
+import NunVerif.Props.C04NewerData
 /-!
 # C04 — the snapshot line names the databases the primary queued
 
